@@ -267,8 +267,8 @@ def replay_c05(path):
 
 # ------------------------------------------------------------------------------------------ C18
 
-C18_SCOPED = ['for', 'forelse', 'forfilter', 'with', 'setblock', 'setblockf', 'filter', 'autoescape', 'if', 'ifelse']
-C18_LEAVES = ['emit', 'emitvar', 'set', 'setself', 'withself', 'ifbreak', 'setblockself', 'looplookup']
+C18_SCOPED = ['for', 'forelse', 'forfilter', 'forfilterloop', 'forloopiter', 'forunpack', 'with', 'setblock', 'setblockf', 'filter', 'autoescape', 'if', 'ifelse']
+C18_LEAVES = ['emit', 'emitvar', 'set', 'setself', 'withself', 'ifbreak', 'setblockself', 'looplookup', 'slice', 'nsset', 'callarg', 'testarg', 'ifexpr']
 
 
 def c18_reads(src):
